@@ -22,7 +22,7 @@ var bufferingInterceptors = map[string]string{
 	"pkg/pacing.Interceptor":               "token-bucket pacer: packets are queued and written by its timer goroutine (C17)",
 	"pkg/jitterbuffer.ReceiverInterceptor": "jitter buffer: packets are re-ordered and emitted later (C18)",
 	"pkg/cc.Interceptor":                   "congestion controller: BindLocalStream hands the stream to the bandwidth estimator's pacer (C17)",
-	"fixtures/fx.GoodBuffering":            "fixture twin of a declared buffering interceptor",
+	"fixtures/fx.GoodA0Buffering":            "fixture twin of a declared buffering interceptor",
 }
 
 func closureOwnerType(fn *ssa.Function) string {
